@@ -806,9 +806,9 @@ def rule_durprec(ctx, rep, rid="R-C10-durprec"):
 
 def run(ctx, rep):
     rep.not_decided += ["parse(render(L)) == L itself (value-level)", "numeric formatting other than the fraction point of reals (durations truncated to whole ms)",
-                        "separator/bracket completeness per production (design rule R-C10-sep not implemented: needs per-production token multisets)",
-                        "that every node kind with own tokens has a writer (design rule R-C10-prod was built and withdrawn: it could not tell wrapper variants and fieldless constants from real productions without a suppression list wider than single constructs, see DESIGN.md)"]
-    rep.assumptions += ["all C10 findings on the pinned tree are frozen byte-for-byte by the *_rendered.st fixtures, so they are recorded as known findings and cannot be repaired"]
+                        "order and multiplicity of the terminals a writer spells (R-C10-tokens decides *which* terminals of a production are spelled by a writer of its node, not where)",
+                        "terminals of sequences that build no node of their own (lists, tuples, values handed up to the caller): attributed only through one-alternative bracketing rules"]
+    rep.assumptions += ["C10 findings whose output is pinned byte-for-byte by a *_rendered.st fixture are recorded as known findings and cannot be repaired without editing the suite"]
     rule_fields(ctx, rep)
     rule_vocab(ctx, rep)
     rule_quotes(ctx, rep)
@@ -823,6 +823,8 @@ def run(ctx, rep):
     rule_listdelim(ctx, rep)
     rule_intwidth(ctx, rep)
     rule_restructure(ctx, rep)
+    from rules import c10_tokens
+    c10_tokens.run(ctx, rep)
     # the renderer never parenthesises a unary expression: that is only right while the grammar binds unary operators tightest
     from rules.c01 import rule_prec
     rule_prec(ctx, rep, ctx.peg, rid="R-C10-prec")
